@@ -295,6 +295,10 @@ def extract(repo):
         if len(rates) != 1 or list(rates)[0] not in d:
             raise TranslateError("%s: one-shot does not use a single rate macro" % fam)
         wr[fam + "_oneshot_rate"] = d[list(rates)[0]]
+        # the exported SHAKE128 / SHAKE256 just forward to the one-shot function
+        _, b = find_function(src, fam.upper())
+        if not re.search(r"\b%s\s*\(\s*output\s*,\s*outputByteLen\s*,\s*input\s*,\s*inputByteLen\s*\)\s*;" % fam, b):
+            raise TranslateError("%s does not forward (output, outputByteLen, input, inputByteLen) to %s" % (fam.upper(), fam))
     d["wr"] = wr
     return d
 
@@ -327,6 +331,15 @@ def emit(d):
           "/-- `KeccakF1600_StatePermute` -/",
           "def keccakF (s : State) : State :=",
           "  (List.range (NROUNDS / 2)).foldl (fun s i => round2 s (RC.getD (2 * i) 0) (RC.getD (2 * i + 1) 0)) s", ""]
+    L += ["end SqiGen.Keccak", ""]
+    return "\n".join(L)
+
+
+def emit_params(d):
+    """rates and domain bytes (separate file: editing a wrapper does not invalidate the permutation proofs)"""
+    L = ["/- GENERATED by tools/translate/keccak.py from src/common/generic/fips202.c — do not edit.",
+         "   Rate macros and, per public SHAKE wrapper, the rate and domain-separation byte it passes on. -/",
+         "namespace SqiGen.Keccak", ""]
     for k in ("SHAKE128_RATE", "SHAKE256_RATE", "SHA3_256_RATE", "SHA3_384_RATE", "SHA3_512_RATE"):
         L.append("def %s : Nat := %d" % (k, d[k]))
     L.append("")
@@ -341,8 +354,12 @@ def emit(d):
 
 def generate(repo, outdir):
     d = extract(repo)
-    ch = write_if_changed(os.path.join(outdir, "Keccak.lean"), emit(d))
-    return ["Keccak.lean regenerated"] if ch else []
+    msgs = []
+    if write_if_changed(os.path.join(outdir, "Keccak.lean"), emit(d)):
+        msgs.append("Keccak.lean regenerated")
+    if write_if_changed(os.path.join(outdir, "KeccakParams.lean"), emit_params(d)):
+        msgs.append("KeccakParams.lean regenerated")
+    return msgs
 
 
 if __name__ == "__main__":
